@@ -62,14 +62,21 @@ structure Cfg where
   /-- the fallback recovery of the flow derivation restores the saved connection lists
   instead of re-connecting the recorded pairs (D8) -/
   dagSnapshot : Bool
+  /-- a workflow works out the keys of its would-be IO view before the swap and refuses a
+  replacement under which two channels would share a key (D7, `fixes/C14-workflow-io-dry-run.patch`) -/
+  wfDryRun : Bool
   /-- bound of the ancestor walk and of the receiver chain -/
   fuel : Nat
   deriving Repr
 
-def Cfg.pinned (fuel : Nat := 64) : Cfg := ⟨false, false, false, false, false, false, fuel⟩
-def Cfg.repaired (fuel : Nat := 64) : Cfg := ⟨true, true, true, true, true, true, fuel⟩
-/-- the tree as it is now: `fix: 02da358` (the ownership pre-check of C13) is in, nothing else -/
-def Cfg.current (fuel : Nat := 64) : Cfg := ⟨false, false, true, false, false, false, fuel⟩
+def Cfg.pinned (fuel : Nat := 64) : Cfg := ⟨false, false, false, false, false, false, false, fuel⟩
+def Cfg.repaired (fuel : Nat := 64) : Cfg := ⟨true, true, true, true, true, true, true, fuel⟩
+/-- the tree in which the findings KF-C14-1…7 were recorded: `fix: 02da358` (the ownership pre-check
+of C13) is in, none of the C14 repairs -/
+def Cfg.current (fuel : Nat := 64) : Cfg := ⟨false, false, true, false, false, false, false, fuel⟩
+/-- the tree as it is now: the five C14 repairs of round 2 are in (a9e5065, 803bad0, 07c1304,
+35d69a0, bba6c5f), the dry run of the workflow IO is not -/
+def Cfg.head (fuel : Nat := 64) : Cfg := ⟨true, true, true, true, true, true, false, fuel⟩
 
 /-- the channels of a node, per panel, in panel order -/
 structure NodeIO where
@@ -94,6 +101,8 @@ structure W where
   locked : Nat → Bool
   imap   : Nat → Option WfIO.KeyMap
   omap   : Nat → Option WfIO.KeyMap
+  /-- `_cached_inputs is not None` (C05's cache; an edit of the graph must drop it) -/
+  cached : Nat → Bool
 
 /-! ## channel tables -/
 
@@ -314,19 +323,24 @@ def standIns (w : W) (new old : Nat) : List (Nat × Nat) :=
 
 def subst (m : List (Nat × Nat)) (y : Nat) : Nat := (m.lookup y).getD y
 
-/-- every neighbour drops the prepended copies and lists the stand-in where it lists the
-replaced channel; the stand-in takes over the replaced channel's own list; the replaced channel
-lets go -/
+/-- first pass of `_seat_replacement`: every neighbour (a channel some connected channel of the
+replaced node lists; each once) drops the prepended copies and lists the stand-in where it lists
+the replaced channel -/
+def seatPass1 (w : W) (new old : Nat) (x : Nat) : List Nat :=
+  let m := standIns w new old
+  if x ∈ m.flatMap (fun e => w.g.conns e.1) then
+    ((w.g.conns x).filter (fun y => w.g.owner y != new)).map (subst m)
+  else w.g.conns x
+
+/-- second pass: the stand-in takes over the replaced channel's own list *as the first pass left
+it* (a self-connection of the replaced node has become one of the replacement), minus what
+still belongs to the replaced node; the replaced channel lets go -/
 def seat (w : W) (new old : Nat) : G :=
   let m := standIns w new old
-  let partners := m.flatMap fun e => w.g.conns e.1
   { w.g with conns := fun x =>
       match m.find? (fun e => e.2 == x) with
-      | some e => (w.g.conns e.1).filter (fun y => w.g.owner y != old)
-      | none =>
-        if m.any (fun e => e.1 == x) then []
-        else if x ∈ partners then ((w.g.conns x).filter (fun y => w.g.owner y != new)).map (subst m)
-        else w.g.conns x }
+      | some e => (seatPass1 w new old e.1).filter (fun y => w.g.owner y != old)
+      | none => if m.any (fun e => e.1 == x) then [] else seatPass1 w new old x }
 
 /-- right after `copy_io` (repair of D1; nothing in the tree as it is) -/
 def seated (cfg : Cfg) (w : W) (new old : Nat) : W :=
@@ -347,7 +361,8 @@ def commit (cfg : Cfg) (w : W) (p old new : Nat) (links : List (Nat × Nat)) : W
   | .ok =>
     let t4 := adopt t3 p new
     let t5 := if isStart then { t4 with starting := updF t4.starting p (t4.starting p ++ [new]) } else t4
-    let w5 := { w1 with t := t5, g := g2 }
+    -- `remove_child` / `add_child` / the last two statements drop the caches
+    let w5 := { w1 with t := t5, g := g2, cached := updF (updF w.cached p false) new false }
     if cfg.linkPrecheck then (forgeSoft cfg.fuel w5 links, .ok) else forge cfg.fuel w5 links
   | e => ({ w1 with t := t3, g := g2 }, e)
 
@@ -359,6 +374,27 @@ def adoptPre (fuel : Nat) (t : Tree.Tree) (p c : Nat) : Err :=
   match adoptRefusal fuel t p c with
   | .parentMost => .typeError
   | e => e
+
+/-- the channels of the would-be IO view of workflow `p` with `new` sitting in for `old`: the
+other children in order, then the replacement under the replaced node's label -/
+def dryChans (w : W) (p old new : Nat) (side : NodeIO → List Nat) : WfIO.Chans :=
+  ((Tree.popVal (w.t.children p) old).flatMap fun e =>
+      (side (w.io e.2)).map fun c => (String.ofList e.1 ++ "__" ++ w.clab c, c)) ++
+    (side (w.io new)).map fun c => (String.ofList (w.t.label old) ++ "__" ++ w.clab c, c)
+
+/-- … and their connectedness: a channel of the replacement counts as connected iff the equally
+labelled channel of the replaced node is -/
+def dryConn (w : W) (old new : Nat) (c : Nat) : Bool :=
+  if w.g.owner c = new then (standIns w new old).any (fun e => e.2 == c) else !(w.g.conns c).isEmpty
+
+/-- `Workflow._ensure_io_survives_replacement`: no two channels of the would-be view share a key -/
+def dryOk (w : W) (p old new : Nat) : Bool :=
+  (WfIO.buildIO (w.imap p) (dryConn w old new) (dryChans w p old new NodeIO.inp)).isSome &&
+  (WfIO.buildIO (w.omap p) (dryConn w old new) (dryChans w p old new NodeIO.out)).isSome
+
+/-- the hook right before `copy_io` -/
+def dryRefuses (cfg : Cfg) (w : W) (p old new : Nat) : Bool :=
+  cfg.wfDryRun && decide (w.t.kind p = .workflow) && !dryOk w p old new
 
 def compReplace (cfg : Cfg) (w : W) (p old new : Nat) : W × Err :=
   if w.t.parent old ≠ some p then (w, .valueError)
@@ -372,10 +408,12 @@ def compReplace (cfg : Cfg) (w : W) (p old new : Nat) : W × Err :=
         | .error e => (w, e)
         | .ok links =>
           if linksValid w links = false then (w, .valueError)
+          else if dryRefuses cfg w p old new then (w, .valueError)
           else
             match copyIo cfg w new old true false with
             | (w1, .ok) => commit cfg (seated cfg w1 new old) p old new links
             | r => r
+      else if dryRefuses cfg w p old new then (w, .valueError)
       else
         match copyIo cfg w new old true false with
         | (w1, .ok) =>
@@ -506,8 +544,15 @@ def copyChan (cfg : Cfg) (w : W) (a b : Nat) : W × Err :=
   | (g', .typeErr) => ({ w with g := g' }, .typeError)
   | (g', .connErr) => ({ w with g := g' }, .connErr)
 
+/-- `p.replace_child("label", new)`: `self.children[owned_node]` first (`KeyError`) -/
+def replaceLabel (cfg : Cfg) (w : W) (p : Nat) (l : Tree.Str) (new : Nat) : W × Err :=
+  match Tree.lookupKey (w.t.children p) l with
+  | none => (w, .keyError)
+  | some old => replace cfg w p old new
+
 inductive Op
   | replace (p old new : Nat)
+  | replaceLabel (p : Nat) (l : Tree.Str) (new : Nat)
   | copyChan (a b : Nat)
   | copyIo (me other : Nat) (connHard valHard : Bool)
   | dag (p : Nat) (up : List (Nat × List Nat)) (start : List Nat)
@@ -517,6 +562,7 @@ def upFn (up : List (Nat × List Nat)) (n : Nat) : List Nat := (up.lookup n).get
 
 def step (cfg : Cfg) (w : W) : Op → W × Err
   | .replace p o n => replace cfg w p o n
+  | .replaceLabel p l n => replaceLabel cfg w p l n
   | .copyChan a b => copyChan cfg w a b
   | .copyIo me other ch vh => copyIo cfg w me other ch vh
   | .dag p up start => dag cfg w p (upFn up) start
